@@ -39,6 +39,9 @@ where
         pow_witness: _pow_witness,
     } = proof;
 
+    // One commit-phase cap per reduction step: the verifier indexes this list by step.
+    ensure!(commit_phase_merkle_caps.len() == params.reduction_arity_bits.len());
+
     let cap_height = params.config.cap_height;
     for cap in commit_phase_merkle_caps {
         // `height()` panics for a length that is not a power of two: compare lengths instead.
